@@ -70,7 +70,11 @@ def cur_md5(actor, k):
     return v["md5"] if v is not None else None
 
 
-def listener_scenario(prog, nsteps, stats):
+def listener_scenario_core(prog, nsteps, stats):
+    return listener_scenario(prog, nsteps, stats, allowed=(0, 1, 2, 3, 5))
+
+
+def listener_scenario(prog, nsteps, stats, allowed=(0, 1, 2, 3, 4, 5, 6)):
     """long-poll completeness. Steps are chosen symbolically; returns violation or None"""
     clock = {"now": 0}
     it = make_interp(prog, clock)
@@ -107,7 +111,7 @@ def listener_scenario(prog, nsteps, stats):
             # 0: L1 on k1   1: L2 on {k1,k2}   2: publish k1   3: publish k2   4: remove k1   5: tick
             # 6: SetTmpValue k1 (what a node that forwarded a publish to the leader does before the raft apply arrives)
             op = None
-            for cand in range(7):
+            for cand in allowed:
                 if it.branch(step[i] == cand):
                     op = cand
                     break
@@ -421,6 +425,10 @@ def run(tier, seed):
             ("s10_1_long_poll", listener_scenario, 3 if tier == "quick" else 4,
              ["Handler<ConfigCmd>::handle (LISTENER arm)", "ConfigListener::{add,notify,timeout}", "ConfigActor::{set_config,del_config}"],
              "every sequence of %d messages over {listen L1(k1), listen L2(k1,k2), publish k1, publish k2, remove k1, tick, SetTmpValue k1}; held md5, contents, time-outs and clock symbolic"),
+            ("s10_3_long_poll_core", listener_scenario_core, 4 if tier == "quick" else 5,
+             ["Handler<ConfigCmd>::handle (LISTENER arm)", "ConfigListener::{add,notify,timeout}", "ConfigActor::{set_config,del_config}"],
+             "every sequence of %d messages over {listen L1(k1), listen L2(k1,k2), publish k1, publish k2, tick} (one step deeper than s10_1, without remove / tmp value: a listener "
+             "answered through one key or by its time-out leaves its id in the other key's list); held md5, contents, time-outs and clock symbolic"),
             ("s10_2_subscribers", subscriber_scenario, 3 if tier == "quick" else 4,
              ["Handler<ConfigCmd>::handle (Subscribe / RemoveSubscribe / RemoveSubscribeClient arms)", "Subscriber::{add_subscribe,remove_subscribe,remove_client_subscribe,remove_config_key,notify}",
               "ConfigActor::{set_config,del_config}"],
@@ -437,7 +445,8 @@ def run(tier, seed):
             if "registered listener answered by a change" in cov:
                 cov["registered listener answered by a change"] = COVER.get("registered listener answered by a change", 0)
             ob["sample"]["covers"] = cov
-            missing = [c for c, n_ in cov.items() if n_ == 0]
+            skip = ("tmp value set", "listener waits across a tmp value") if name == "s10_3_long_poll_core" else ()
+            missing = [c for c, n_ in cov.items() if n_ == 0 and c not in skip]
             if viol is None:
                 if missing:
                     ob.update({"verdict": "inconclusive", "message": "reachability witness never reached: %s (vacuous scenario)" % missing})
